@@ -184,6 +184,45 @@ def forms_workload(ck, pid, tier, salts):
     return traces, meta
 
 
+def sequences_workload(ck, pid, tier, als):
+    """C07 over multi-line runs: sequences of 3 abstract lines sharing one run, concretized twice with the same
+    equality pattern among the secrets (line 3 repeats the secret of line 1 in half of the cases)."""
+    thorough = tier == "thorough"
+    r = rng(pid, "seq")
+    reserved = set(default_reserved_words)
+    one = [a for a in als if a["eq"] == "one" and a["mode"] == "replace" and a["form"] not in ("A1", "A2", "H1")]
+    traces, meta = [], []
+    for si in range(1500 if thorough else 250):
+        trip = [r.choice(one) for _ in range(3)]
+        same13 = si % 2 == 0 and trip[0]["cls"][0] == trip[2]["cls"][0] and trip[0]["slen"] == trip[2]["slen"]
+        variants = []
+        for v in range(2):
+            concs = [G.concretize(al, rng(pid, "seqfill", si, j), rng(pid, "seqsec", si, j, v), reserved) for j, al in enumerate(trip)]
+            lines = [c["line"] for c in concs]
+            if same13:
+                # line 3 carries the same secret value as line 1 (equality pattern kept in both variants)
+                old = concs[2]["secrets"][0]["value"]
+                new = concs[0]["secrets"][0]["value"]
+                lines[2] = lines[2].replace(old, new)
+            outs, logs = run_lines(lines, ["TESTSALT", "", "Qx"][si % 3], "rmi" if si % 2 else "io")
+            variants.append((lines, outs, logs))
+        ev = [{"ev": "run", "clauses": CLAUSES[pid]}]
+        info = [None]
+        if any(isinstance(v[1], str) for v in variants):
+            ev.append({"ev": "exc", "what": str([v[1] for v in variants if isinstance(v[1], str)][0])})
+            info.append(("sequence", repr(variants[0][0])))
+        else:
+            ev.append({"ev": "pair", "what": "output", "a": "\n".join(variants[0][1]), "b": "\n".join(variants[1][1])})
+            info.append(("paired sequences %r / %r" % (variants[0][0], variants[1][0]), "%r vs %r" % (variants[0][1], variants[1][1])))
+            ev.append({"ev": "pair", "what": "log", "a": "\n".join(variants[0][2]), "b": "\n".join(variants[1][2])})
+            info.append(("paired logs", "%r vs %r" % (variants[0][2], variants[1][2])))
+        traces.append(ev)
+        meta.append({"key": "sequence forms=%s same13=%s" % ("+".join(a["form"] for a in trip), same13), "lines": variants[0][0], "info": info,
+                     "seq": [describe(a) for a in trip], "trip": trip, "concs": None})
+        ck.count(("seq", si))
+    return traces, meta
+
+
 def judge(ck, pid, traces, meta, label):
     validate_traces("SecretTrace", "SecretTrace.cfg", traces, max_events_per_shard=6000)
     ck.traces += len(traces)
@@ -196,6 +235,20 @@ def judge(ck, pid, traces, meta, label):
                 key = "%s %s" % (label, finding_key(m["al"], m["conc"], clause))
                 inf = m["info"][k] if 0 <= k < len(m["info"]) else None
                 what = "%s: %s rejected by clause %s: %s (salt %r via %s)" % (label, describe(m["al"]), clause, inf, m["salt"], m["via"])
+            elif "seq" in m:
+                # a rejected pair of sequences: key by the known ambiguity classes of its lines, else by the forms
+                cl = []
+                for a in m["trip"]:
+                    toks = [t.get("lit", "") for t in a["toks"]]
+                    kw = any(w in ("password", "passwd") for t in toks for w in t.split(" "))
+                    typed = any(t in ("0", "5", "6", "7", "8", "ENC") for t in toks)
+                    tail = toks and (toks[-1] != "" and "sec" not in a["toks"][-1])
+                    if a["cls"][0] == "numeric" and kw and not typed and tail:
+                        cl.append("D11")
+                    if a["form"] == "P3" and "sha512" in toks and "password" in toks:
+                        cl.append("D12-password-sha512")
+                key = "%s clause=%s lines=%s" % (label, clause, "+".join(sorted(set(cl))) or m["key"])
+                what = "%s: clause %s: %s" % (label, clause, m["info"][k] if k < len(m["info"]) else "")
             else:
                 key = "%s clause=%s %s" % (label, clause, m.get("key", ""))
                 what = "%s: clause %s: %s" % (label, clause, json.dumps({a: e[a] for a in e if a not in ("ctxin", "ctxout")})[:400])
@@ -413,6 +466,10 @@ def run(pid, tier):
     salts = ["TESTSALT", "", "#first-char-outside-alphabet", "Qsalt"]
     traces, meta = forms_workload(ck, pid, tier, salts)
     judge(ck, pid, traces, meta, "forms")
+    if pid == "C07":
+        als_all = [m["al"] for m in meta]
+        traces2, meta2 = sequences_workload(ck, pid, tier, als_all)
+        judge(ck, pid, traces2, meta2, "sequences")
     ck.sample({"abstract_line": meta[0]["al"], "concrete": meta[0]["conc"]["line"], "out": meta[0]["info"][1]})
     if pid in ("C08", "C09"):
         traces, meta = history_workload(ck, pid, tier)
